@@ -168,6 +168,44 @@ class Capture:
                              {"history": history, "tool": b.hex(), "state": cfmt.summary(s)}, signature="not-normalised")
 
 
+def saved_names_oracle(a, b, v, where, history):
+    """after a sync that ended well the saved state names exactly the files, links and empty directories that are on the data
+    disks (what the scan had in memory went into the file: nothing is dropped by the writer)"""
+    try:
+        cs = content.decode(b)
+    except content.ContentError:
+        return 0
+    names = [n.encode() for n in a.conf.disk_names]
+    bad = []
+    for d, dn in enumerate(names):
+        base = a.ddir(d).encode()
+        files, links, dirs = set(), set(), set()
+        for dp, dns, fns in os.walk(base):
+            rel = os.path.relpath(dp, base)
+            for n in fns:
+                q = os.path.join(dp, n); sub = n if rel == b"." else os.path.join(rel, n)
+                (links if os.path.islink(q) else files).add(sub)
+            for n in list(dns):
+                q = os.path.join(dp, n); sub = n if rel == b"." else os.path.join(rel, n)
+                if os.path.islink(q):
+                    links.add(sub)
+                elif not os.listdir(q):
+                    dirs.add(sub)
+        rec = next((x for x in cs["disks"].values() if x["name"] == dn), None)
+        rf = set(f["sub"] for f in rec["files"]) if rec else set()
+        rl = set(l["sub"] for l in rec["links"]) if rec else set()
+        rd = set(rec["dirs"]) if rec else set()
+        # names sharing an inode: one of them is recorded as the file, the others as hard links
+        if (rf | rl) != (files | links) or rd != dirs:
+            bad.append({"disk": dn.decode(), "files_or_links_missing": sorted(x.decode("latin1") for x in (files | links) - (rf | rl)),
+                        "files_or_links_extra": sorted(x.decode("latin1") for x in (rf | rl) - (files | links)),
+                        "dirs_missing": sorted(x.decode("latin1") for x in dirs - rd), "dirs_extra": sorted(x.decode("latin1") for x in rd - dirs)})
+    if bad:
+        v.violation("the state saved by a successful sync does not name what is on the data disks after: %s: %s" % (where, bad),
+                    {"history": history, "differences": bad}, signature="saved-state-drops-entries")
+    return 1
+
+
 def report_through_each_copy(a, copies, v, cap, where, history):
     """list and status -G through copy k alone (the others renamed away) must not depend on k"""
     digs = []
@@ -273,6 +311,24 @@ def history(hseed, conf_kw, profile, nsteps, v, cap, stats):
         r = a.run("sync")
         g.steps.append("sync -> %d" % r.rc)
         b2 = cap.look(a, copies, tag + " final sync", g.steps)
+        if b2 is not None and r.rc == 0:
+            stats["oracle"] = stats.get("oracle", 0) + saved_names_oracle(a, b2, v, tag + " final sync", g.steps)
+            # a disk that holds nothing but empty directories, another nothing but a link: still recorded
+            last = conf.nd - 1
+            shutil.rmtree(a.ddir(last)); os.makedirs(os.path.join(a.ddir(last), "only", "dirs")); os.makedirs(os.path.join(a.ddir(last), "e"))
+            if conf.nd > 1:
+                shutil.rmtree(a.ddir(0)); os.makedirs(a.ddir(0)); os.symlink("nowhere", os.path.join(a.ddir(0), "only-link"))
+            a.clock += 100
+            r5 = a.run("sync", "-E")
+            g.steps.append("disk %d keeps only empty directories, disk 0 only a link; sync -E -> %d" % (last, r5.rc))
+            b5 = cap.look(a, copies, tag + " only-dirs sync", g.steps)
+            if b5 is not None and r5.rc == 0:
+                stats["oracle"] = stats.get("oracle", 0) + saved_names_oracle(a, b5, v, tag + " only-dirs sync", g.steps)
+                r6 = a.run("diff")
+                if r6.rc != 0:
+                    v.violation("diff reports differences (exit %d) right after a successful sync of disks holding only empty "
+                                "directories / only a link after: %s" % (r6.rc, tag), {"history": g.steps, "out": r6.out[-800:]},
+                                signature="saved-state-drops-entries")
         if b2 is not None:
             if copies > 1:
                 stats["copy_loads"] += report_through_each_copy(a, copies, v, cap, tag + " final", g.steps)
@@ -431,6 +487,7 @@ def run(tier):
                                    "positions beyond the tier's limit": sum(1 for e in model_only if e["s"]["hs"] in (2, 4, 8, 16))},
             "highest_position_bound_to_tool": max(cfmt.Bmax(e["s"]) for e in bound) - 1 if bound else 0,
             "code_to_spec_histories": stats["histories"], "code_to_spec_steps": stats["steps"],
+            "saved_state_vs_file_system_comparisons": stats.get("oracle", 0),
             "code_to_spec_content_files_read": cap.files_looked, "code_to_spec_distinct_files": len(real),
             "code_to_spec_versions": cap.versions, "code_to_spec_record_kinds": "".join(sorted(cap.kinds)),
             "code_to_spec_loads_through_single_copy": stats["copy_loads"], "code_to_spec_rewrites": stats["rewrites"],
